@@ -24,6 +24,8 @@ pub struct Post {
     /// export at packet level only (no per-set / per-value exports): for very large results
     pub export1: bool,
     pub common: bool,
+    /// summarise data sets (record / value / byte counts) instead of listing every value: adversarial 64 KiB inputs
+    pub light: bool,
 }
 
 /// lower-case alphanumerics of a symbolic name (spelling-insensitive comparison with IANA keywords)
@@ -239,6 +241,12 @@ fn v9_item(p: &v9::V9, post: Post) -> Value {
                 v9::FlowSetBody::OptionsTemplate(t) => json!({"k": "otmpl", "id": id, "len": len,
                     "recs": t.templates.iter().map(v9_otemplate).collect::<Vec<_>>(),
                     "pad": bytes(&t.padding)}),
+                v9::FlowSetBody::Data(d) if post.light => {
+                    let nval: usize = d.fields.iter().map(|r| r.len()).sum();
+                    let vbytes: usize = d.fields.iter().flat_map(|r| r.values()).map(|(_, v)| vbytes(v)).sum();
+                    json!({"k": "data", "id": id, "len": len, "nrec": d.fields.len() as u64, "nval": nval as u64,
+                           "vbytes": vbytes as u64, "pad": bytes(&d.padding)})
+                }
                 v9::FlowSetBody::Data(d) => json!({"k": "data", "id": id, "len": len,
                     "recs": d.fields.iter().map(|rec| {
                         rec.iter().map(|(idx, (ft, v))| json!({"i": *idx as u64, "t": *ft as u16 as u64,
@@ -312,6 +320,33 @@ fn ipfix_maps(
     )
 }
 
+fn vbytes(v: &FieldValue) -> usize {
+    match v {
+        FieldValue::String(s) => s.len(),
+        FieldValue::Vec(b) | FieldValue::Unknown(b) => b.len(),
+        FieldValue::MacAddr(_) => 6,
+        FieldValue::Ip6Addr(_) => 16,
+        FieldValue::Float64(_) | FieldValue::Duration(_) => 8,
+        FieldValue::DataNumber(DataNumber::U128(_)) => 16,
+        FieldValue::DataNumber(DataNumber::U64(_)) => 8,
+        FieldValue::ProtocolType(_) | FieldValue::DataNumber(DataNumber::U8(_)) => 1,
+        FieldValue::DataNumber(DataNumber::U16(_)) => 2,
+        _ => 4,
+    }
+}
+
+fn ipfix_summary(
+    k: &str,
+    id: u64,
+    len: u64,
+    fields: &[std::collections::BTreeMap<usize, (netflow_parser::variable_versions::ipfix_lookup::IPFixField, FieldValue)>],
+    pad: &[u8],
+) -> Value {
+    let nval: usize = fields.iter().map(|m| m.len()).sum();
+    let vb: usize = fields.iter().flat_map(|m| m.values()).map(|(_, v)| vbytes(v)).sum();
+    json!({"k": k, "id": id, "len": len, "nrec": fields.len() as u64, "nval": nval as u64, "vbytes": vb as u64, "pad": bytes(pad)})
+}
+
 fn ipfix_item(p: &ipfix::IPFix, post: Post) -> Value {
     let h = &p.header;
     let sets: Vec<Value> = p
@@ -325,6 +360,8 @@ fn ipfix_item(p: &ipfix::IPFix, post: Post) -> Value {
                     "recs": [ipfix_template(t)], "pad": bytes(&t.padding)}),
                 ipfix::FlowSetBody::OptionsTemplate(t) => json!({"k": "otmpl", "id": id, "len": len,
                     "recs": [ipfix_otemplate(t)], "pad": bytes(&t.padding)}),
+                ipfix::FlowSetBody::Data(d) if post.light => ipfix_summary("data", id, len, &d.fields, &d.padding),
+                ipfix::FlowSetBody::OptionsData(d) if post.light => ipfix_summary("odata", id, len, &d.fields, &d.padding),
                 ipfix::FlowSetBody::Data(d) => json!({"k": "data", "id": id, "len": len,
                     "maps": ipfix_maps(&d.fields, post), "pad": bytes(&d.padding)}),
                 ipfix::FlowSetBody::OptionsData(d) => json!({"k": "odata", "id": id, "len": len,
